@@ -261,6 +261,42 @@ def _dyn_worker(args):
                     viol("dyn.precedence_filter_equals_static_priorities", cfgname, w,
                          {"expected": repr(exp), "trees": n, "first": repr(got)})
                 # a rejected reduction is not taken: no node of the result was rejected with these sub-results
+    # ---- LR, only the operator TERMINALS marked: every S/R conflict is dynamic through its look-ahead; a filter
+    # that vetoes every operator shift competing with a reduction leaves the (unmarked) reduction = all operators equal and left associative
+    if ops and all(term_marks.get(o) for o in ops) and not any(prod_marks.get(o) for o in ops):
+        cfgname = "Parser/terminals_marked_shift_veto"
+        if not only or only.get("config") == cfgname:
+            left = {o: (1, "left") for o in ops}
+            opnames = {NAMES[o] for o in ops}
+
+            def veto(context, from_state, to_state, action, production, subresults):
+                if action is None:
+                    return None
+                if action is SHIFT and to_state.symbol.name in opnames:
+                    # veto the shift only where a reduction competes with it (rejecting the only action of a state
+                    # is outside the property: the LR driver then fails with IndexError, see DESIGN.md 0.6)
+                    return not any(a.action is REDUCE for a in from_state.actions.get(to_state.symbol, []))
+                return True
+            rec = Recorder(veto)
+            pf = None
+            try:
+                pf = Parser(g, dynamic_filter=rec, build_tree=True, prefer_shifts=False, prefer_shifts_over_empty=False)
+            except (SRConflicts, RRConflicts) as e:
+                viol("dyn.conflicts_tolerated_when_dynamic", cfgname, None, type(e).__name__)
+            for toks in (exprs if pf else []):
+                w = " ".join(toks)
+                if only and w != only["input"]:
+                    continue
+                res["evaluations"] += 1
+                rec.calls = []
+                exp = climb(toks, left)
+                st, val = outcome(pf.parse, w)
+                why = protocol_report(rec)
+                if why:
+                    viol("dyn.filter_protocol", cfgname, w, why)
+                if st != "ok" or to_shape(val) != exp:
+                    viol("dyn.rejected_action_is_not_taken", cfgname, w,
+                         {"expected": repr(exp), "observed": exc_str(val) if st != "ok" else repr(to_shape(val))})
     # ---- GLR, only productions marked: precedence by inspecting sub-results ------------------------------
     if all(prod_marks.get(o) for o in ops) and not any(term_marks.get(o) for o in ops) and table:
         cfgname = "GLRParser/subresult_precedence_filter"
